@@ -22,6 +22,9 @@ WORKER = "vibrato::tokenizer::worker::Worker"
 TOKEN = "vibrato::token::Token"
 TOKENITER = "vibrato::token::TokenIter"
 
+# observers of the connection-id statistics (C13); all other observers expose tokens (C04, C01)
+COUNT_OBSERVERS = {"update_connid_counts", "compute_connid_probs", "init_connid_counter"}
+
 # Table exceptions (one line of reason each)
 ACCUMULATORS = {"counter": "C13: sentences add to the connection-id counter by contract"}
 CONFIG = {"tokenizer": "shared immutable configuration (& reference; see SHARE)"}
@@ -119,7 +122,7 @@ def apply_kills(state, must_kill, kind):
     return new
 
 
-def run(ctx):
+def run(ctx, scope="tokens"):
     F = ctx.facts("A")
     crate = F.lib
     E = Effects(crate)
@@ -282,6 +285,9 @@ def run(ctx):
         # ---- W2: observers after reset_sentence; tokenize ------------------------------------------
         st2 = apply_kills(st1, s_tok.must_kill, WORKER)
         for o in obs + [m for m in muts if m not in (p_reset, p_tok)]:
+            is_count = crate.fns[o].name in COUNT_OBSERVERS
+            if (scope == "tokens") == is_count:
+                continue
             s_o = pruned(o, val)
             kind = fn_kind(o)
             bad, n = check_exposed("RESET-W2", o, s_o, st2, kind)
@@ -334,3 +340,11 @@ def run(ctx):
                "their receiver; dependencies' internals are not analysed")
     ctx.assume("W2 accepts two forms: the location is refreshed by reset_sentence/tokenize, or "
                "the observer branches on the same emptiness predicate as tokenize's early return")
+
+
+def run_tokens(ctx):
+    run(ctx, "tokens")
+
+
+def run_counts(ctx):
+    run(ctx, "counts")
